@@ -125,13 +125,48 @@ def observe(h: Any, e: Any, state: dict[str, Any]) -> Any:
 ORACLE = Oracle(on_quiescent=on_quiescent, on_tick=on_tick, final=final)
 
 RULE = ("all schedules of the shared engine program catalog (fan-out, retries, collect re-runs, waiter replays, "
-        "HITL, resume); per processed tick the published PREPARING/RUNNING/NOT_RUNNING events are compared with "
+        "HITL, resume) plus a request event that is also the input of a retried step; per processed tick the published PREPARING/RUNNING/NOT_RUNNING events are compared with "
         "the change of the runner's queue / in-progress sets, per slot the stream must match (RUNNING NOT_RUNNING)*; "
         "non-trivial = at least one deviation from the default schedule")
 
 
+def wf_request_consumed_with_retry(delay: float) -> type:
+    """an InputRequiredEvent returned by one step is also the INPUT of another step that fails once and is retried: the
+    request went out when it was returned; re-queueing it for the retry is not a second request"""
+    from vmc.engine import gate, make_step, make_workflow
+    from vmc.events import Ask, Done
+    from workflows.events import StartEvent, StopEvent
+    from workflows.retry_policy import retry_policy, stop_after_attempt, wait_fixed
+
+    async def ask(self, ctx, ev, inv):  # noqa: ANN001
+        await gate("ask")
+        return Ask(uid=1)
+
+    async def audit(self, ctx, ev, inv):  # noqa: ANN001
+        n = inv.retry.retry_number
+        await gate(f"audit#{n}")
+        if n == 0:
+            raise RuntimeError("audit log unavailable")
+        return Done(uid=ev.uid)
+
+    async def fin(self, ctx, ev, inv):  # noqa: ANN001
+        return StopEvent(result="audited")
+
+    return make_workflow("RequestConsumed", [
+        make_step("ask", [StartEvent], [Ask], ask),
+        make_step("audit", [Ask], [Done], audit, retry_policy=retry_policy(wait=wait_fixed(delay), stop=stop_after_attempt(3))),
+        make_step("fin", [Done], [StopEvent], fin)])
+
+
+def extra_specs(tier: str) -> list[Any]:
+    from vmc.progs import Spec
+
+    return [Spec("request_consumed_with_retry(zero)", {}, lambda: wf_request_consumed_with_retry(0), tags=("hitl", "retry")),
+            Spec("request_consumed_with_retry(delay)", {}, lambda: wf_request_consumed_with_retry(2.0), tags=("hitl", "retry"))]
+
+
 def programs(tier: str) -> list[Any]:
-    return to_programs(catalog(tier), ORACLE)
+    return to_programs(catalog(tier) + extra_specs(tier), ORACLE)
 
 
 def run(tier: str, seed: int) -> Any:
